@@ -638,6 +638,9 @@ func (modComp) Gen(r *rand.Rand, tier string, n int) []*wire.Case {
 		add(2, 18, 1, 0, 0, ""), wire.R("extcnt").I("t", 2).I("name", 18).I("n", 9), wire.R("extcnt").I("t", 2).I("name", 18).I("n", -9))
 	mk("d-extend", add(1, 3, 1, 2, 2, ""), add(1, 3, 2, 2, 0, ""), wire.R("extdur").I("t", 1).I("name", 3).I("n", 2), wire.R("extcnt").I("t", 1).I("name", 3).I("n", 1), wire.R("extcnt").I("t", 1).I("name", 3).I("n", -3),
 		wire.R("rmsrc").I("t", 1).I("src", 2).I("name", 3))
+	mk("d-rmsrc-multiple", add(1, 3, 2, 0, 0, ""), add(1, 3, 1, 0, 0, ""), add(1, 3, 2, 2, 0, ""), add(1, 10, 2, 0, 0, ""), add(1, 3, 2, 0, 0, atk), add(2, 3, 2, 0, 0, ""),
+		wire.R("rmsrc").I("t", 1).I("src", 2).I("name", 3), wire.R("rmsrc").I("t", 1).I("src", 2).I("name", 3), add(1, 17, 3, 0, 0, ""), add(1, 17, 3, 0, 0, ""), wire.R("rmsrc").I("t", 1).I("src", 3).I("name", 17),
+		wire.R("rm").I("t", 1).I("name", 3), wire.R("rm").I("t", 2).I("name", 3))
 	mk("d-extend-reentrant", add(1, 14, 1, 0, 0, ""), add(1, 25, 1, 1, 0, ""), add(1, 25, 2, 2, 0, ""), add(1, 25, 3, 3, 0, ""), wire.R("extdur").I("t", 1).I("name", 25).I("n", 2),
 		add(1, 26, 1, 1, 0, ""), add(1, 26, 2, 2, 0, ""), add(1, 26, 3, 3, 0, ""), wire.R("extdur").I("t", 1).I("name", 26).I("n", 2),
 		add(1, 27, 1, 0, 2, ""), add(1, 27, 2, 0, 2, ""), add(1, 27, 3, 0, 2, ""), wire.R("extcnt").I("t", 1).I("name", 27).I("n", 1))
@@ -671,6 +674,7 @@ func (modComp) Gen(r *rand.Rand, tier string, n int) []*wire.Case {
 		l := 6 + r.Intn(30)
 		adds := 0
 		cursor := map[int]int{}
+		var lastAdd *wire.Rec
 		for j := 0; j < l; j++ {
 			t := pick(r, 1, 1, 2, 3)
 			name := r.Intn(len(modCatalog))
@@ -706,10 +710,20 @@ func (modComp) Gen(r *rand.Rand, tier string, n int) []*wire.Case {
 				}
 				ops = append(ops, op)
 				adds++
+				if lastAdd == nil || r.Intn(3) == 0 {
+					lastAdd = op
+				} else if r.Intn(2) == 0 { // once more, the same target, shape and source
+					ops = append(ops, add(lastAdd.Int("t"), lastAdd.Int("name"), lastAdd.Int("src"), 0, 0, ""))
+					adds++
+				}
 			case 6:
 				ops = append(ops, wire.R("rm").I("t", t).I("name", name))
 			case 7:
-				ops = append(ops, wire.R("rmsrc").I("t", t).I("src", pick(r, 1, 2, 3)).I("name", name))
+				if lastAdd != nil && r.Intn(2) == 0 { // the (target, shape, source) of an earlier addition: several instances when the shape allows them
+					ops = append(ops, wire.R("rmsrc").I("t", lastAdd.Int("t")).I("src", lastAdd.Int("src")).I("name", lastAdd.Int("name")))
+				} else {
+					ops = append(ops, wire.R("rmsrc").I("t", t).I("src", pick(r, 1, 2, 3)).I("name", name))
+				}
 			case 8:
 				if adds > 0 {
 					ops = append(ops, wire.R("rmself").I("t", t).I("uid", 1+r.Intn(adds+2)))
